@@ -62,6 +62,21 @@ def has_mod(e):
     return e[0] == "bin" and (e[1] == "%" or has_mod(e[2]) or has_mod(e[3])) or (e[0] == "neg" and has_mod(e[1]))
 
 
+def shortest_decimal(x):
+    """The decimal Rust's Display prints: the fewest significant digits that read back as x, the candidate nearest to x,
+    and on an exact tie the one further from zero (flt2dec rounds a half up; Python's repr rounds it to even)."""
+    import decimal
+    exact = Decimal(x)
+    with decimal.localcontext() as c:
+        c.prec = 40
+        e = exact.adjusted()
+        for n in range(1, 18):
+            q = exact.quantize(Decimal(1).scaleb(e - n + 1), rounding=decimal.ROUND_HALF_UP)
+            if float(q) == x:
+                return q
+    return Decimal(repr(x))
+
+
 def fmt_float(x):
     """Rust's Display for f64."""
     if math.isnan(x):
@@ -70,7 +85,7 @@ def fmt_float(x):
         return "inf" if x > 0 else "-inf"
     if x == 0:
         return "-0" if math.copysign(1, x) < 0 else "0"
-    s = format(Decimal(repr(x)), "f")
+    s = format(shortest_decimal(x), "f")
     if "." in s:
         s = s.rstrip("0").rstrip(".")
     return s
